@@ -14,9 +14,12 @@ Abstract cases (first field = kind, second = table spec `id:N | rw:N:SEQ | txt:T
   hist  SPEC STEP…        one private table instance through a history: `T:dna` translate, `W:seq` re-weight in
                           place, `S:i,j` swap the letters of entries i and j in place; a translation must depend
                           on the table as it is NOW
-Strings with letters other than A/C/G/T (N, U, gaps, letters outside ASCII) are judged too (class suffix
-`foreign-letters`): codons are framed by letters, and a complete codon that holds such a letter gives no residue
-(Props/C06 `translate_foreign_codon`).
+The property quantifies over A/C/G/T strings of length ≥ 1 under the 25 tables.  Strings with other letters (N, U,
+gaps, letters outside ASCII; class suffix `foreign-letters`), the empty string, the empty table and absent ids are
+DRIFT PROBES: the reply is compared with the model (`corr`) but never judged, so a change of behaviour there
+(X for an ambiguous codon, RNA accepted, "" accepted) is reported as drift, not as a violation.  An empty PIECE of a
+split / tail case counts as the empty protein whether the API rejects it or not.
+A request the harness does not answer (crash, timeout, panic, error) is a FAILURE when the case is in the quantifier.
 The concrete strings of a request are produced here (take / drop / map), i.e. by the functions the theorems
 are about.
 -/
@@ -98,10 +101,26 @@ def okVal : List String → Option Str
   | ["ok", v] => some v.toList
   | _ => none
 
-/-- value of a piece for the concatenation law: the empty piece is rejected by the API ("empty sequence"),
-its translation is the empty protein -/
+/-- value of a piece for the concatenation law.  The empty string is outside the property's quantifier (strings of
+length 1..3000): whether the API rejects it (as it does today) or returns the empty protein, the piece counts as
+the empty protein. -/
 def pieceVal (s : Str) (o : List String) : Option Str :=
-  if s.isEmpty then (if o.head? == some "err" then some [] else none) else okVal o
+  if s.isEmpty then (if o.head? == some "err" || o == ["ok", ""] then some [] else none) else okVal o
+
+/-- is the case inside C06's quantifier?  Decidable from the case alone: one of the 25 ids (possibly re-weighted)
+or a well-formed text table, and strings over A/C/G/T in either case, at least one of them non-empty (an empty
+piece or stem beside it is read as the empty protein).  (Strings with N, U, gaps,
+letters outside ASCII, the empty string, the empty table, absent ids: generated as drift probes, never judged.) -/
+def inQuantifier (spec : String) (ss : List Str) : Bool :=
+  let tableOk :=
+    if spec.startsWith "id:" then Spec.Ncbi.ids.contains (natOfStr (spec.drop 3).toString)
+    else if spec.startsWith "rw:" then
+      match (spec.drop 3).toString.splitOn ":" with
+      | n :: _ => Spec.Ncbi.ids.contains (natOfStr n)
+      | _ => false
+    else if spec.startsWith "txt:" then decide (WFTable (parseTable (spec.drop 4).toString))
+    else false
+  tableOk && ss.any (fun s => !s.isEmpty) && ss.all fun s => decide (Acgt s)
 
 def judgeSeqs (f : List String) (spec : String) (ss : List Str) (out : List String) : Verdict :=
   match out with
@@ -116,11 +135,10 @@ def judgeSeqs (f : List String) (spec : String) (ss : List Str) (out : List Stri
         | .dflt n => canonTable (parseTable reported) == canonTable (getCodonTable n)
         | _ => true
       let corr := outs == model && tableSame
-      let knownId := match k with | .dflt id | .rw id => Spec.Ncbi.ids.contains id | .txt => false
       let wf := decide (WFTable t)
       let emptyT := emptyTable t && k == .txt
       let foreign := !(ss.all fun s => decide (Acgt s))
-      let dom := emptyT || (knownId || (k == .txt && wf))
+      let dom := inQuantifier spec ss
       -- a default table must still be well formed (re-weighting keeps the code)
       let kind := f.headD ""
       let s0 := ss.headD []
@@ -140,7 +158,7 @@ def judgeSeqs (f : List String) (spec : String) (ss : List Str) (out : List Stri
           (let rec go : List Str → List (List String) → Bool
             | a :: b :: more, oa :: ob :: omore =>
               -- each piece against the spec, and the concatenation law (empty piece: API error read as "")
-              oa == expect a && ob == expect b &&
+              (a.isEmpty || oa == expect a) && (b.isEmpty || ob == expect b) &&
               (match pieceVal a oa, pieceVal b ob, pieceVal s0 o0 with
                | some va, some vb, some v => v == va ++ vb
                | _, _, _ => false) && go more omore
@@ -151,7 +169,8 @@ def judgeSeqs (f : List String) (spec : String) (ss : List Str) (out : List Stri
         | "tail" =>
           -- compare the proteins (the API rejects the empty string; its translation is the empty protein)
           let vals := (ss.zip outs).map fun (s, o) => pieceVal s o
-          o0 == expect s0 && outs.length == 2 && vals.all fun v => v.isSome && v == vals.headD none
+          (s0.isEmpty || o0 == expect s0) && outs.length == 2 &&
+            ((ss.zip outs).all fun (s, o) => s.isEmpty || o == expect s) && vals.all fun v => v.isSome && v == vals.headD none
         | _ => false
       let kt := match k with | .dflt _ => "default" | .rw _ => "reweighted" | .txt => "text"
       let triv := s0.length < 3
@@ -162,9 +181,10 @@ def judgeSeqs (f : List String) (spec : String) (ss : List Str) (out : List Stri
         detail := if corr && j then "" else
           (if tableSame then "" else "TABLE HELD BY THE PROCESS ≠ REGENERATED TABLE ") ++ lineOf (model.flatten ++ ["expect"] ++ expect s0) }
   | st :: _ =>
-    -- the whole request failed (bad spec / unknown op): never in domain
-    { corr := false, judge := none, cls := "request-" ++ st }
-  | [] => { corr := false, judge := none, cls := "no-reply" }
+    -- no answer for the whole request (crash, timeout, panic, error): inside the quantifier that is a failure
+    { corr := false, judge := if inQuantifier spec ss then some false else none, cls := "request-" ++ st,
+      detail := "the harness did not answer this request: " ++ st }
+  | [] => { corr := false, judge := if inQuantifier spec ss then some false else none, cls := "no-reply" }
 
 def sameSet (a b : List Str) : Bool := a.all b.contains && b.all a.contains && a.length == b.length
 
@@ -181,13 +201,17 @@ def judgeTable (n : Nat) (out : List String) : Verdict :=
     let j := if known then
         sameSet t.startCodons (Spec.Ncbi.starts n) && sameSet t.stopCodons (Spec.Ncbi.stops n) && cellsOk && decide (WFTable t)
       else t == { startCodons := [], stopCodons := [], aminoAcids := [] }
-    { corr := corr, judge := some j, cls := if known then "table/ncbi" else "triv:table/absent",
+    { corr := corr, judge := if known then some j else none, cls := if known then "table/ncbi" else "triv:table/absent",
       detail := if corr && j then "" else showTable (getCodonTable n) }
-  | _ => { corr := false, judge := some false, cls := "table/bad-reply" }
+  | _ => { corr := false, judge := if Spec.Ncbi.ids.contains n then some false else none, cls := "table/bad-reply" }
 
 /-- a history on one private table instance (`W:seq` re-weight in place, `S:i,j` swap the letters of two
 entries in place, `T:dna` translate): every `T` step is judged against the table text reported at that moment -/
-def judgeHist (steps : List String) (out : List String) : Verdict :=
+def histInQuantifier (spec : String) (steps : List String) : Bool :=
+  inQuantifier spec ["A".toList] && steps.all fun st =>
+    !st.startsWith "T:" || (let s := (st.drop 2).toString.toList; !s.isEmpty && decide (Acgt s))
+
+def judgeHist (spec : String) (steps : List String) (out : List String) : Verdict :=
   match out with
   | "ok" :: rest =>
     let rec go (fuel : Nat) (steps rest : List String) (corr j wf : Bool) (detail : String) : Bool × Bool × Bool × String :=
@@ -209,19 +233,20 @@ def judgeHist (steps : List String) (out : List String) : Verdict :=
                 match specTranslation t .txt s with
                 | some x => ["ok", String.ofList x]
                 | none => ["?"]
-              go fuel more rest' (corr && o == m) (j && o == expect) (wf && decide (WFTable t))
+              go fuel more rest' (corr && o == m) (j && o == expect) (wf && decide (WFTable t) && decide (Acgt s) && !s.isEmpty)
                 (if o == m && o == expect then detail else lineOf (m ++ ["expect"] ++ expect))
             | _ => (false, false, wf, "reply shape")
           else (false, false, wf, "bad step")
     let (corr, j, wf, detail) := go (steps.length + 1) steps rest true true true ""
     { corr := corr, judge := if wf then some j else none, cls := "hist/" ++ toString steps.length ++ "steps", detail := detail }
-  | st :: _ => { corr := false, judge := none, cls := "request-" ++ st }
-  | [] => { corr := false, judge := none, cls := "no-reply" }
+  | st :: _ => { corr := false, judge := if histInQuantifier spec steps then some false else none, cls := "hist/request-" ++ st,
+                 detail := "the harness did not answer this request: " ++ st }
+  | [] => { corr := false, judge := if histInQuantifier spec steps then some false else none, cls := "hist/no-reply" }
 
 def judge (f out : List String) : Verdict :=
   match f with
   | ["table", n] => judgeTable (natOfStr n) out
-  | "hist" :: _ :: steps => judgeHist steps out
+  | "hist" :: spec :: steps => judgeHist spec steps out
   | _ =>
     match seqsOf f with
     | some (spec, ss) => judgeSeqs f spec ss out
